@@ -451,6 +451,32 @@ fn chk_lazy(mode: &str, rg: Range, bytes: &[u8]) -> Result<(), String> {
         if !read_ranges(&sh.0.borrow().log).is_empty() {
             return Err("lookup of an absent tile read from the stream".into());
         }
+        // tiles of the archive that lie outside the range the archive was opened with: not there, nothing read
+        for (id, _) in all.iter().filter(|(id, _)| !std::ops::RangeBounds::contains(&rg, *id)).step_by((all.len() / 6).max(1)).take(8) {
+            sh.0.borrow_mut().log.clear();
+            let got = res(catch_unwind(AssertUnwindSafe(|| pm.get_tile_by_id(*id))), "get_tile_by_id")?;
+            if got.is_some() || !read_ranges(&sh.0.borrow().log).is_empty() {
+                return Err(format!("tile {id} lies outside the range {} the archive was opened with, yet its lookup returned {} and read {:?}", range_tok(&rg), if got.is_some() { "bytes" } else { "nothing" }, read_ranges(&sh.0.borrow().log)));
+            }
+        }
+        // lookups by coordinates read the same single range, whatever the zoom fields of the header say
+        for (k, (id, ol)) in in_range.iter().step_by(step).enumerate().take(12) {
+            let Ok((z, x, y)) = pmtiles2::util::zxy(*id) else { continue };
+            if k % 2 == 0 {
+                pm.min_zoom = 31;
+                pm.max_zoom = 0;
+            } else {
+                pm.min_zoom = z.saturating_add(1);
+                pm.max_zoom = z.saturating_sub(1);
+            }
+            sh.0.borrow_mut().log.clear();
+            let got = res(catch_unwind(AssertUnwindSafe(|| pm.get_tile(x, y, z))), "get_tile")?;
+            let want = (h.data_off + ol.0, h.data_off + ol.0 + u64::from(ol.1));
+            let rr = read_ranges(&sh.0.borrow().log);
+            if rr != vec![want] || got.as_deref() != Some(spec::tile_bytes(bytes, h, *ol)?) {
+                return Err(format!("lookup of tile {id} by its coordinates ({z}/{x}/{y}) read {rr:?} and returned {}; its byte range is [{}, {})", if got.is_some() { "bytes" } else { "nothing" }, want.0, want.1));
+            }
+        }
     } else {
         let sh = AShared::new(Core::new(bytes.to_vec(), 0));
         let mut pm = res(catch_unwind(AssertUnwindSafe(|| block_on(PMTiles::from_async_reader_partially(sh.clone(), rg)))), "from_async_reader_partially")?;
@@ -517,6 +543,30 @@ fn chk_lazy(mode: &str, rg: Range, bytes: &[u8]) -> Result<(), String> {
                         return Err(format!("async lookup of tile {id} interrupted once in the middle returned other bytes"));
                     }
                 }
+            }
+        }
+        for (id, _) in all.iter().filter(|(id, _)| !std::ops::RangeBounds::contains(&rg, *id)).step_by((all.len() / 6).max(1)).take(8) {
+            sh.0.lock().unwrap().log.clear();
+            let got = res(catch_unwind(AssertUnwindSafe(|| block_on(pm.get_tile_by_id_async(*id)))), "get_tile_by_id_async")?;
+            if got.is_some() || !read_ranges(&sh.0.lock().unwrap().log).is_empty() {
+                return Err(format!("tile {id} lies outside the range {} the archive was opened with, yet its async lookup returned {} and read {:?}", range_tok(&rg), if got.is_some() { "bytes" } else { "nothing" }, read_ranges(&sh.0.lock().unwrap().log)));
+            }
+        }
+        for (k, (id, ol)) in in_range.iter().step_by(step).enumerate().take(12) {
+            let Ok((z, x, y)) = pmtiles2::util::zxy(*id) else { continue };
+            if k % 2 == 0 {
+                pm.min_zoom = 31;
+                pm.max_zoom = 0;
+            } else {
+                pm.min_zoom = z.saturating_add(1);
+                pm.max_zoom = z.saturating_sub(1);
+            }
+            sh.0.lock().unwrap().log.clear();
+            let got = res(catch_unwind(AssertUnwindSafe(|| block_on(pm.get_tile_async(x, y, z)))), "get_tile_async")?;
+            let want = (h.data_off + ol.0, h.data_off + ol.0 + u64::from(ol.1));
+            let rr = read_ranges(&sh.0.lock().unwrap().log);
+            if rr != vec![want] || got.as_deref() != Some(spec::tile_bytes(bytes, h, *ol)?) {
+                return Err(format!("async lookup of tile {id} by its coordinates ({z}/{x}/{y}) read {rr:?} and returned {}; its byte range is [{}, {})", if got.is_some() { "bytes" } else { "nothing" }, want.0, want.1));
             }
         }
     }
